@@ -1188,6 +1188,7 @@ class TorProcessProtocol(protocol.ProcessProtocol):
             self.connection_creator = None
         # use SingleObserver
         self._connected_listeners = []  # list of Deferred (None when we're connected)
+        self._connected_result = self  # or a Failure, if we didn't connect
 
         self.attempted_connect = False
         self.to_delete = []
@@ -1211,7 +1212,8 @@ class TorProcessProtocol(protocol.ProcessProtocol):
 
     def when_connected(self):
         if self._connected_listeners is None:
-            return succeed(self)
+            # already notified; same outcome for late callers
+            return succeed(self._connected_result)
         d = Deferred()
         self._connected_listeners.append(d)
         return d
@@ -1225,6 +1227,7 @@ class TorProcessProtocol(protocol.ProcessProtocol):
         """
         if self._connected_listeners is None:
             return
+        self._connected_result = arg
         for d in self._connected_listeners:
             # Twisted will turn this into an errback if "arg" is a
             # Failure
